@@ -331,8 +331,22 @@ def shard(col, shard_i, ngrammars, ninputs):
                 cause = 'last_node-binding'
             else:
                 cause = 'define-placement-or-unoptimized'
+            # inside the fragment of GenEquiv.v (C02_generated_parser_equals_model) the two MUST agree: a difference there is never
+            # one of the listed findings (the theorem says the models agree, so either the code or a model is off)
+            if not cfgdiff and cause != 'parseinfo-rule-name-is-safe_name':
+                try:
+                    frag = mr.ask([E.genok_request(c.g, R.compile_grammar(c.g))])[0]
+                    in_fragment = bool(frag) and all(str(x) == '1' for x in frag)
+                except Exception:
+                    in_fragment = False
+                col.count('fragment.differing-case-in-fragment' if in_fragment else 'fragment.differing-case-outside')
+                if in_fragment:
+                    cause = 'INSIDE-THE-PROVED-FRAGMENT'
+                    explained = False
             if explained:
                 sig = f'gen-vs-model:explained-by-Gen.v:{cause}'
+            elif cause == 'INSIDE-THE-PROVED-FRAGMENT':
+                sig = f'gen-vs-model:inside-the-proved-fragment:{io[0]}-vs-{go[0]}'
             else:
                 sig = f'gen-vs-model:unexplained:{io[0]}-vs-{go[0]}:{sorted(c.settings.kwargs())}'
             col.violation(sig, f'the generated parser and model.parse disagree ({io[0]} vs {go[0]})',
